@@ -213,6 +213,17 @@ m("M20f", "C20", JSX, ("        return indent_str + '\"' + x.replace('\"', '\\\\
 m("M20g", "C20", JSX, ("        if child_str != \"\":\n            res += \",\" + eol + child_str", "        if child_str.strip() != \"\":\n            res += \",\" + eol + child_str"), "informational: whitespace-only child dropped? (string children are quoted so never blank) expected silent")
 m("M20h", "C20", JSX, ("    if isinstance(x, MetadataNode):\n        return \"\"\n    elif isinstance(x, str):", "    if isinstance(x, str):"), "metadata nodes reach the TypeError branch")
 
+# ---- found by tools/automutate.py (first-order mutants that survive the tests) ------------------------------------------------
+m("M14i", "C14", CORE, ("        self.extend(item)\n        return self", "        return self"), "+= stores nothing")
+m("M11g", "C11", CORE, ("        self._content.append(*args)\n", "        pass\n"), "HTMLDocument.append stores nothing")
+m("M10h", "C10", CORE, ('    def get_dependencies(self, *, dedup: bool = True) -> list["HTMLDependency"]:', '    def get_dependencies(self, *, dedup: bool = False) -> list["HTMLDependency"]:'), "TagList.get_dependencies() unresolved by default")
+m("M10i", "C10", CORE, ('    def get_dependencies(self, dedup: bool = True) -> list["HTMLDependency"]:', '    def get_dependencies(self, dedup: bool = False) -> list["HTMLDependency"]:'), "Tag.get_dependencies() unresolved by default")
+m("M13i", "C13", CORE, ("        if len(self._deps) > 0:\n            dep_tags.append(", "        if len(self._deps) >= 0:\n            dep_tags.append("), "text document lists dependencies even when there are none")
+m("M13j", "C13", CORE, ("        if len(self._deps) > 0:\n            dep_tags.append(", "        if len(self._deps) > 1:\n            dep_tags.append("), "text document omits the listing for a single dependency")
+m("M13k", "C13", CORE, ("        if len(self._deps) > 0:\n            dep_tags.append(", "        if len(self._deps) > 0:\n            (lambda *a: None)("), "text document never writes the listing")
+m("M20i", "C20", JSX, ("    def extend(self, x: Iterable[TagNode]) -> None:\n        self.children.extend(x)", "    def extend(self, x: Iterable[TagNode]) -> None:\n        pass"), "JSXTag.extend stores nothing")
+m("M20j", "C20", JSX, ("    def append(self, *args: TagNode) -> None:\n        self.children.append(*args)", "    def append(self, *args: TagNode) -> None:\n        pass"), "JSXTag.append stores nothing")
+
 
 def run_one(e, keep_killed=False):
     tmp = tempfile.mkdtemp(prefix="mutrun_")
